@@ -82,6 +82,15 @@ pub fn cmd_replay(args: &[String]) -> i32 {
             text.push_str(&format!("\n[x]({})\n", url));
         }
         state.insert(name.join("/"), text);
+        // ... and a note holding, for every key, an image whose alternative text links to it
+        let mut img = d.clone();
+        img.push("zzimg".into());
+        let mut text = String::from("# images\n");
+        for k in keys.iter() {
+            let url = Key::from_file_name(&k.join("/")).to_rel_link_url(&ds);
+            text.push_str(&format!("\npic ![see [x]({}) there](p.png) end\n", url));
+        }
+        state.insert(img.join("/"), text);
     }
     let st2 = state.clone();
     if let Ok(exp) = catch(move || Graph::import(&st2, MarkdownOptions::default()).export()) {
@@ -99,6 +108,29 @@ pub fn cmd_replay(args: &[String]) -> i32 {
                 for (k, url) in keys.iter().zip(urls.iter()) {
                     let (u, _) = parse_url(url);
                     writeln!(out, "{}", json!({"ev":"write","via":"export of a block reference","k":k,"d":d,"raw":url,"url":u})).unwrap();
+                }
+            }
+        }
+    }
+    let st3 = state.clone();
+    if let Ok(exp) = catch(move || Graph::import(&st3, MarkdownOptions::default()).export()) {
+        for d in dirs.iter() {
+            let mut name = d.clone();
+            name.push("zzimg".into());
+            if let Some(t) = exp.get(&name.join("/")) {
+                // the i-th image line still links to the i-th key
+                let urls: Vec<String> = t
+                    .lines()
+                    .filter(|l| l.starts_with("pic !["))
+                    .filter_map(|l| l.find("](").map(|at| &l[at + 2..]).and_then(|r| r.find(')').map(|e| r[..e].to_string())))
+                    .collect();
+                if urls.len() != keys.len() {
+                    writeln!(out, "{}", json!({"ev":"write","via":"export of a link inside an image text (count)","k":["<all>"],"d":d,"raw":format!("{} of {}", urls.len(), keys.len()),"url":{"up":0,"segs":[],"md":false,"dot":false}})).unwrap();
+                    continue;
+                }
+                for (k, url) in keys.iter().zip(urls.iter()) {
+                    let (u, _) = parse_url(url);
+                    writeln!(out, "{}", json!({"ev":"write","via":"export of a link inside an image text","k":k,"d":d,"raw":url,"url":u})).unwrap();
                 }
             }
         }
